@@ -23,6 +23,7 @@ pub fn opts() -> GenOpts {
     let mut o = GenOpts::general();
     o.cmd_depth = 2;
     o.max_named = 6;
+    o.twins = true;
     o.custom_help = true;
     o.pure_fail = true;
     o
@@ -141,11 +142,33 @@ fn sentence_with(
     name: &Names,
     rng: &mut Rng,
 ) -> Option<Vec<Vec<u8>>> {
+    // `--color=WHEN | --color`: the bare spelling followed by a word is read as the argument, so
+    // lines that use the flag twin of such a pair are not sentences one can rely on
+    let mut items = Vec::new();
+    level.root.all_items(&mut items);
+    let flag_twins: Vec<Id> = items
+        .iter()
+        .filter(|i| i.is_flag())
+        .filter(|i| {
+            items.iter().any(|o| {
+                o.is_arg()
+                    && (o.names.shorts.iter().any(|c| i.names.shorts.contains(c))
+                        || o.names.longs.iter().any(|l| i.names.longs.contains(l)))
+            })
+        })
+        .map(|i| i.id)
+        .collect();
     for _ in 0..12 {
         let mut g = Gen::new(rng);
         g.presence = 7;
         let d = derive(&level.root, &mut g)?;
         let mut units = order_units(&d.atoms, rng, OrderStyle::Canonical, DashDash::IfNeeded)?;
+        if units
+            .iter()
+            .any(|u| matches!(&u.kind, UKind::Flag { item, .. } if flag_twins.contains(item)))
+        {
+            continue;
+        }
         let mut found = false;
         for u in &mut units {
             if u.depth != 0 {
